@@ -200,5 +200,9 @@ def open_row_is_exchange_open(ctx):
             if loc_attr(w.loc) in ('open_dt', 'close_dt'):
                 ex[loc_attr(w.loc)] = time_of_day(w.value)
     ok = offs.get('Open') == ex.get('open_dt') == (14, 30) and offs.get('Close') == ex.get('close_dt') == (21, 0)
-    ctx.require(ok, 'C08.times', 'a bar\'s open price is quoted from the exchange\'s opening instant and its close price from the closing instant', None,
+    if not offs and ex.get('open_dt') == (14, 30) and ex.get('close_dt') == (21, 0):
+        ctx.undecided('C08.times', 'a bar\'s open price is quoted from the exchange\'s opening instant and its close price from the closing instant', None,
+                      'the converter stamps its rows in a way this rule does not read')
+    else:
+        ctx.require(ok, 'C08.times', 'a bar\'s open price is quoted from the exchange\'s opening instant and its close price from the closing instant', None,
                 'bar rows %s, exchange %s' % (offs, ex), key='C08.times')
